@@ -371,6 +371,22 @@ func (e *Exec) modifiedBy(lp *loopParts) (map[interface{}]bool, map[string]bool,
 	allocCh := false
 	e.dry++
 	defer func() { e.dry-- }()
+	logStart := map[string]int{}
+	for k, ws := range e.writes {
+		logStart[k] = len(ws)
+	}
+	e.freshOnly = map[string]bool{}
+	defer func() {
+		// classify modified keys: written only at objects allocated inside the loop body?
+		fo := map[string]bool{}
+		for k := range modH {
+			if e.onlyFreshWrites(k, logStart[k]) {
+				fo[k] = true
+			}
+		}
+		e.freshOnly = fo
+		// the log entries of the dry run stay (they over-approximate the real run)
+	}()
 	saved := e.st
 	savedFacts, savedDecls, savedErrs := len(e.facts), len(e.decls), len(e.errs)
 	savedDeclared := map[string]string{}
@@ -481,8 +497,22 @@ func (e *Exec) havocSet(modV map[interface{}]bool, modH map[string]bool, allocCh
 		if sort == "" {
 			continue
 		}
-		e.st.heap[k] = e.fresh("Hh."+k, sort)
+		old := e.heapGet(k, sort)
+		n := e.fresh("Hh."+k, sort)
+		e.st.heap[k] = n
+		if e.freshOnly[k] && e.dry == 0 {
+			// the loop writes this key only at objects it allocates itself: everything that existed at loop
+			// entry keeps its value
+			e.addFact(fmt.Sprintf("(forall ((r!h Int)) (! (=> (<= (root r!h) %s) (= (select %s r!h) (select %s r!h))) :pattern ((select %s r!h))))", allocBefore(e), n, old, n))
+		}
 	}
+}
+
+func allocBefore(e *Exec) string {
+	if e.loopAlloc != "" {
+		return e.loopAlloc
+	}
+	return e.st.alloc
 }
 
 func (e *Exec) havocLike(hint string, old Val, key interface{}) Val {
@@ -509,6 +539,11 @@ func (e *Exec) havocLike(hint string, old Val, key interface{}) Val {
 }
 
 func (e *Exec) runLoop(lp *loopParts) {
+	savedPos := e.curPos
+	if len(e.frames) == 1 || e.frame().closure {
+		e.curPos = lp.node.Pos()
+	}
+	defer func() { e.curPos = savedPos }()
 	var spec *LoopSpec
 	if e.contract != nil && len(e.frames) >= 1 && e.loopSpecApplies() {
 		spec = e.curContract().Loops[lp.ord]
@@ -524,7 +559,9 @@ func (e *Exec) runLoop(lp *loopParts) {
 	// 2. havoc modified state
 	modV, modH, allocCh := e.modifiedBy(lp)
 	var decBefore string
+	e.loopAlloc = e.st.alloc
 	e.havocSet(modV, modH, allocCh)
+	e.loopAlloc = ""
 	// 3. assume invariant
 	if spec != nil {
 		for _, inv := range spec.Invariants {
